@@ -56,7 +56,7 @@ Definition vis_of (l : list Z) : Z -> Z := fun s => nth (Z.to_nat s) l 0.
 
 (* too long: [.. Persist pts 4] is a prefix in which 4 messages are covered, undelivered and
    unreported (the callback came one step later) *)
-Definition tl_cfg : config := std_config 2 (fun _ => 0) (fun _ => true) 0 2 0 0.
+Definition tl_cfg : config := std_config 2 (fun _ => 0) (fun _ => true) (fun _ => false) 0 2 0 0.
 Definition tl_log : list entry := [E 1 0 0 1 1; E 2 0 0 2 1; E 3 0 0 3 1; E 4 0 0 4 1].
 Definition tl_ops : list mop := [MStartup (vis_of [0; 0]); MTooLong (vis_of [4; 0])].
 Theorem C03_toolong_refuted_before_repair :
@@ -68,7 +68,7 @@ Example C03_toolong_repaired : mtr (mrun tl_cfg tl_log tl_ops) = [TooLong 0 0 4;
 Proof. vm_compute. reflexivity. Qed.
 
 (* difference {new_messages:[1], other_updates:[2]}: pts 2 persisted, update 2 never delivered *)
-Definition w_cfg : config := std_config 2 (fun _ => 0) (fun _ => true) 0 0 0 0.
+Definition w_cfg : config := std_config 2 (fun _ => 0) (fun _ => true) (fun _ => false) 0 0 0 0.
 Definition w_log : list entry := [E 1 0 0 1 1; E 2 1 0 2 1].
 Theorem C03_refuted_before_repair :
   let tr := mtr (mrun_old w_cfg w_log [MStartup (vis_of [0; 0]); MTooLong (vis_of [2; 0])]) in
